@@ -71,10 +71,8 @@ def encode_db(db):
 
 
 def stype_bytes(t):
-    """Short Apple UUID as 16 bytes little endian."""
-    import uuid
-
-    return uuid.UUID(f"{t:08X}-0000-1000-8000-0026BB765291").bytes[::-1]
+    """Apple-defined types travel in their short form (as few little-endian bytes as the number needs), as real accessories send them."""
+    return int(t).to_bytes(max(1, (int(t).bit_length() + 7) // 8), "little")
 
 
 class CoapAccessory:
@@ -105,10 +103,18 @@ class CoapAccessory:
     # ---- resources
     def post(self, path: str, payload: bytes):
         """-> (code, payload) with code in {'changed', 'notfound'}."""
-        if path.endswith("/2"):
-            return "changed", self.pair_verify(payload)
-        if path.endswith("/1"):
-            return "changed", tlv8.encode(self.setup.handle(payload))
+        if path.endswith("/2") or path.endswith("/1"):
+            reply = self.pair_verify(payload) if path.endswith("/2") else tlv8.encode(self.setup.handle(payload))
+            f = getattr(self, "pair_fault", None)  # {"verify-m2": items, ..., "code": "changed" | "badreq" | "unauth" | "unavail"}: scripted answer to one step
+            if f:
+                try:
+                    st = dict(tlv8.decode(payload)).get(hap.T_STATE, b"\x00")[0]
+                except Exception:  # noqa: BLE001
+                    st = 0
+                key = ("verify" if path.endswith("/2") else "setup") + f"-m{st + 1}"
+                if key in f:
+                    return f.get("code", "changed"), tlv8.encode(f[key])
+            return "changed", reply
         if self.session is None:
             return "notfound", b""
         pt = C.open_(self.session["c2a"], nonce(self.session["c2a_ctr"]), payload)
